@@ -10,7 +10,8 @@ Kinds == <<"Update", "VM", "VNM", "Freeze", "MemberZero">>
 Idx(n) == CHOOSE i \in DOMAIN Kinds : Kinds[i] = n
 W(n) == IF TLCGet(Idx(n)) = 0 THEN TLCSet(Idx(n), 1) /\ PrintT(<<"WITNESS", n>>) ELSE TRUE
 
-Updates == { [a |-> "Update", sigs |-> sg, data |-> StateData(h, t)] : sg \in Lists(Pool("state"), LMAX), h \in 1..MaxH, t \in 1..2 }
+Updates == { [a |-> "Update", sigs |-> sg, data |-> StateData(h, t)]
+             : sg \in Lists(Pool("state"), LMAX) \cup {Good("state")}, h \in 1..MaxH, t \in 1..2 }
 PktLists == {<<>>} \cup Lists(PktItems, 2)
 Verifs  == { [a |-> "VM", h |-> h, sigs |-> sg, data |-> PacketData(dh, pl), pathc |-> pc, val |-> v]
              : h \in 1..MaxH, dh \in 1..MaxH, sg \in { Good("packet"), <<Sg("a1", "v01", "this", "packet")>>, Good("state") },
